@@ -304,6 +304,11 @@ def final_density_matrix(
             deferred = measurement_transformers.defer_measurements(noise_applied)
             dephased = measurement_transformers.dephase_measurements(deferred)
             program = dephased
+            if isinstance(initial_state, int):
+                # The integer indexes the basis states of the circuit's own qubits. The ancilla
+                # qubits added by `defer_measurements` come last and start in the zero state.
+                n = protocols.num_qubits(circuit_like)
+                initial_state *= int(np.prod(protocols.qid_shape(dephased)[n:], dtype=np.int64))
         elif ignore_measurement_results:
             # case 2: no classical control, only terminal measurement
             program = measurement_transformers.dephase_measurements(circuit_like)
